@@ -475,10 +475,31 @@ def _item(eng, st, a):
 
 def _eff(st, kind, **kw):
     e = Effect(kind, loops=st.loopstack, stack=st.stack, **kw)
-    if kind == "write":
+    if kind in ("write", "read"):
         e.ver = st.wver.get(e.item, 0)
+    if kind == "write" and e.old is None and e.op in ("save", "remove"):
+        # read-modify-write spelled out: a read of the same cell earlier on this path with no write to the item in
+        # between.  `old` is then the term that read produced (what Map::update / Item::update hand to their closure).
+        for r in reversed(st.effects):
+            if r.kind == "write" and r.item == e.item:
+                break
+            if r.kind == "read" and r.item == e.item and r.key == e.key and r.ver == e.ver and r.op in ("load", "may_load"):
+                e.old = ("vfield", (r.op, e.item, e.key, e.ver), "Ok", "0")
+                e.rd = r
+                break
     st.effects.append(e)
     return e
+
+
+def is_rmw_in_place(e):
+    """is_rmw and the read sits in the same loop iteration as the write (nothing cached across iterations)"""
+    return is_rmw(e) and e.rd is not None and e.rd.loops == e.loops
+
+
+def is_rmw(e):
+    """write whose new content was computed after reading the same cell with no intervening write to the item:
+    Map::update / Item::update, or the same thing spelled load/may_load .. save/remove"""
+    return e.kind == "write" and (e.op == "update" or e.old is not None)
 
 
 def _ver(st, item):
@@ -596,7 +617,7 @@ def p_smap_remove(eng, st, name, args, site, depth, call):
 def _do_update(eng, st, item, key, closure, height, site, depth, is_item):
     """update(k, f): read, apply f, write iff Ok, return the new value"""
     ver = _ver(st, item)
-    _eff(st, "read", item=item, key=key, op="update", site=site)
+    rd = _eff(st, "read", item=item, key=key, op="update", site=site)
     out = []
     if is_item:
         # Item::update loads (fails when absent) and passes T
@@ -608,13 +629,16 @@ def _do_update(eng, st, item, key, closure, height, site, depth, is_item):
             else:
                 out.append((s, ERR(p[0])))
     else:
-        starts = [(st, ("oldval", item, key, ver))]
+        # Path::update is `may_load(store)? -> action -> save`: hand the closure the very term an explicit
+        # `may_load(..)?` yields, so that the folded and the unfolded spelling summarise identically
+        starts = [(st, ("vfield", ("may_load", item, key, ver), "Ok", "0"))]
     for s, old in starts:
         for s2, r in eng.call_value(s, closure, [old], site, depth):
             for s3, n, p in eng.force_enum(s2, r, RESULT, site):
                 if n == "Ok":
                     newv = eng.val(s3, p[0])
-                    _eff(s3, "write", item=item, key=key, op="update", value=newv, old=old, extra=height, site=site)
+                    w = _eff(s3, "write", item=item, key=key, op="update", value=newv, old=old, extra=height, site=site)
+                    w.rd = rd
                     _bump(s3, item)
                     out.append((s3, OK(newv)))
                 else:
@@ -679,6 +703,84 @@ def p_sp_iter(eng, st, name, args, site, depth, call):
         _eff(st, "read", item=base, key=("range",), op=op, site=site)
     short = name.split("::")[-2] + "::" + op
     return one(st, ("call", short, (item,) + tuple(rest)))
+
+
+# --------------------------------------------------------------------------- Map::key(k) -> Path: the same cell, addressed once
+@prim("cw_storage_plus::Map::key")
+def p_map_key(eng, st, name, args, site, depth, call):
+    return one(st, ("path", _item(eng, st, args[0]), eng.val(st, args[1])))
+
+
+def _path(eng, st, a):
+    v = eng.val(st, a)
+    if v[0] == "path":
+        return v[1], v[2]
+    return None, None
+
+
+@prim_re(r"^cw_storage_plus::Path::(load|may_load)$")
+def p_path_load(eng, st, name, args, site, depth, call):
+    item, key = _path(eng, st, args[0])
+    if item is None:
+        return _blind_storage(eng, st, name, args, site, call)
+    op = name.split("::")[-1]
+    _eff(st, "read", item=item, key=key, op=op, site=site)
+    return one(st, (op, item, key, _ver(st, item)))
+
+
+@prim("cw_storage_plus::Path::has")
+def p_path_has(eng, st, name, args, site, depth, call):
+    item, key = _path(eng, st, args[0])
+    if item is None:
+        return _blind_storage(eng, st, name, args, site, call)
+    _eff(st, "read", item=item, key=key, op="has", site=site)
+    return one(st, ("has", item, key, _ver(st, item)))
+
+
+@prim("cw_storage_plus::Path::save")
+def p_path_save(eng, st, name, args, site, depth, call):
+    item, key = _path(eng, st, args[0])
+    if item is None:
+        return _blind_storage(eng, st, name, args, site, call)
+    v = eng.val(st, args[2])
+    _eff(st, "write", item=item, key=key, op="save", value=v, site=site)
+    _bump(st, item)
+    return one(st, OK(UNIT))
+
+
+@prim("cw_storage_plus::Path::remove")
+def p_path_remove(eng, st, name, args, site, depth, call):
+    item, key = _path(eng, st, args[0])
+    if item is None:
+        return _blind_storage(eng, st, name, args, site, call)
+    _eff(st, "write", item=item, key=key, op="remove", site=site)
+    _bump(st, item)
+    return one(st, UNIT)
+
+
+@prim("cw_storage_plus::Path::update")
+def p_path_update(eng, st, name, args, site, depth, call):
+    item, key = _path(eng, st, args[0])
+    if item is None:
+        return _blind_storage(eng, st, name, args, site, call)
+    return _do_update(eng, st, item, key, args[2], None, site, depth, False)
+
+
+def _blind_storage(eng, st, name, args, site, call):
+    """a storage accessor the tables cannot attribute to a cell: fail closed (ENGINE obligation), never silently pure"""
+    eng.blind.add((name, "storage access through an accessor the primitive table does not model, at %s:%s" % (site[0], site[1])))
+    return opaque_call(eng, st, name, args, site, call)
+
+
+_SP_PURE = re.compile(r"^cw_storage_plus::(Bound|PrefixBound|Bounder|RawBound|Endian|int_key|keys|de|helpers::(namespaces_with_key|nested_namespaces_with_key|encode_length))")
+
+
+@prim_re(r"^(<)?cw_storage_plus::")
+def p_sp_other(eng, st, name, args, site, depth, call):
+    if _SP_PURE.search(name.lstrip("<")) or name.endswith(("::new", "::new_dyn")) or "PrimaryKey" in name or "KeyDeserialize" in name \
+            or "Bound" in name or "Prefixer" in name:
+        return opaque_call(eng, st, name, args, site, call)
+    return _blind_storage(eng, st, name, args, site, call)
 
 
 # --------------------------------------------------------------------------- cw-controllers
@@ -828,12 +930,15 @@ def p_is_empty(eng, st, name, args, site, depth, call):
 
 
 # --------------------------------------------------------------------------- iteration
-@prim_re(r"^<.* as std::iter::Iterator>::next$")
+@prim_re(r"(^<.* as std::iter::Iterator>::next$)|(impl std::iter::Iterator for .*>::next$)")
 def p_next(eng, st, name, args, site, depth, call):
     a = args[0]
     it = eng.val(st, a)
     n = st.fresh()
     res = ("calli", "next", (it,), n)
+    if a[0] == "ref":
+        # the iterator has moved on: a second next() on the same variable is a different element
+        eng.write_loc(st, a[1], a[2], ("call", "advance", (it,)))
     return one(st, res)
 
 
@@ -897,6 +1002,152 @@ def p_sort_dedup(eng, st, name, args, site, depth, call):
     if a[0] == "ref":
         eng.write_loc(st, a[1], a[2], new)
     return one(st, UNIT)
+
+
+
+# --------------------------------------------------------------------------- internal iteration (closure-driven loops)
+def _iter_loop(eng, st, name, args, site, depth, call):
+    """try_fold / try_for_each / fold / for_each: summarised like a `for` loop traversed zero times and once, with the
+    same loop_enter / loop_step effects, `next` decisions and loopvar terms the MIR loops get (idioms.acc_chain /
+    loop_elem work unchanged).  A failing closure result breaks out with that error."""
+    op = name.split("::")[-1]
+    it = eng.val(st, args[0])
+    has_acc = op in ("try_fold", "fold")
+    fallible = op.startswith("try_")
+    clos = args[2] if has_acc else args[1]
+    init = eng.val(st, args[1]) if has_acc else UNIT
+    lk = (site[2], ("iter", op, site[1]), st.fresh())
+    vals0 = {"iter": it}
+    if has_acc:
+        vals0["acc"] = init
+    st.effects.append(Effect("loop_enter", name=lk, value=vals0, site=site, loops=st.loopstack, stack=st.stack))
+    it0 = ("loopvar", lk, "iter", 0)
+    acc0 = ("loopvar", lk, "acc", 0) if has_acc else UNIT
+    nxt = ("calli", "next", (it0,), st.fresh())
+    out = []
+    for s, n, p in eng.force_enum(st, nxt, OPTION, site):
+        if n == "None":
+            out.append((s, (OK(acc0) if fallible else acc0)))
+            continue
+        outer = s.loopstack
+        s.loopstack = outer + (lk,)
+        cargs = [acc0, p[0]] if has_acc else [p[0]]
+        for s2, r in eng.call_value(s, clos, cargs, site, depth):
+            if fallible:
+                adt = r[1] if r[0] == "variant" else RESULT
+                branches = eng.force_enum(s2, r, adt, site)
+            else:
+                branches = [(s2, "Ok", [r])]
+            for s3, n3, p3 in branches:
+                if n3 in ("Err", "None"):
+                    s3.loopstack = outer
+                    out.append((s3, ERR(p3[0]) if n3 == "Err" else NONE))
+                    continue
+                v = eng.val(s3, p3[0]) if p3 else UNIT
+                vals1 = {"iter": it0}
+                if has_acc:
+                    vals1["acc"] = v
+                s3.effects.append(Effect("loop_step", name=lk, value=vals1, site=site, loops=s3.loopstack, stack=s3.stack))
+                s3.loopstack = outer
+                acc1 = ("loopvar", lk, "acc", 1) if has_acc else UNIT
+                if fallible:
+                    out.append((s3, (SOME(acc1) if n3 == "Some" else OK(acc1))))
+                else:
+                    out.append((s3, acc1))
+    return out
+
+
+@prim_re(r"Iterator>::(try_fold|try_for_each|for_each|fold)$")
+def p_iter_loop(eng, st, name, args, site, depth, call):
+    return _iter_loop(eng, st, name, args, site, depth, call)
+
+
+@prim("std::iter::Iterator::try_fold", "std::iter::Iterator::try_for_each", "std::iter::Iterator::for_each",
+      "std::iter::Iterator::fold")
+def p_iter_loop2(eng, st, name, args, site, depth, call):
+    return _iter_loop(eng, st, name, args, site, depth, call)
+
+
+@prim("std::option::Option::is_some_and", "std::option::Option::is_none_or", "std::result::Result::is_ok_and",
+      "std::result::Result::is_err_and")
+def p_is_and(eng, st, name, args, site, depth, call):
+    adt = _adt_of(name)
+    op = name.split("::")[-1]
+    hit = {"is_some_and": "Some", "is_none_or": "Some", "is_ok_and": "Ok", "is_err_and": "Err"}[op]
+    out = []
+    for s, n, p in eng.force_enum(st, args[0], adt, site):
+        if n == hit:
+            out.extend(_call_closure(eng, s, args[1], [p[0]], site, depth))
+        else:
+            out.append((s, TRUE if op == "is_none_or" else FALSE))
+    return out
+
+
+@prim("cosmwasm_std::Uint128::one", "cosmwasm_std::Uint64::one")
+def p_one(eng, st, name, args, site, depth, call):
+    return one(st, ("lit", 1))
+
+
+@prim("std::option::Option::zip")
+def p_opt_zip(eng, st, name, args, site, depth, call):
+    out = []
+    for s, n, p in eng.force_enum(st, args[0], OPTION, site):
+        if n == "None":
+            out.append((s, NONE))
+            continue
+        for s2, n2, p2 in eng.force_enum(s, args[1], OPTION, site):
+            out.append((s2, SOME(("tuple", (p[0], p2[0]))) if n2 == "Some" else NONE))
+    return out
+
+
+@prim("std::option::Option::and", "std::result::Result::and")
+def p_and(eng, st, name, args, site, depth, call):
+    adt = _adt_of(name)
+    out = []
+    for s, n, p in eng.force_enum(st, args[0], adt, site):
+        if n in ("Some", "Ok"):
+            out.append((s, eng.val(s, args[1])))
+        else:
+            out.append((s, NONE if adt == OPTION else ERR(p[0])))
+    return out
+
+
+@prim("std::option::Option::xor")
+def p_xor(eng, st, name, args, site, depth, call):
+    return opaque_call(eng, st, name, args, site, call)
+
+
+@prim("std::option::Option::is_some_or", "std::option::Option::then_some", "core::bool::<impl bool>::then_some")
+def p_then_some(eng, st, name, args, site, depth, call):
+    out = []
+    for s, b in eng.force_bool(st, args[0], site):
+        out.append((s, SOME(eng.val(s, args[1])) if b else NONE))
+    return out
+
+
+@prim("core::bool::<impl bool>::then")
+def p_then(eng, st, name, args, site, depth, call):
+    out = []
+    for s, b in eng.force_bool(st, args[0], site):
+        if b:
+            for s2, r in _call_closure(eng, s, args[1], [], site, depth):
+                out.append((s2, SOME(r)))
+        else:
+            out.append((s, NONE))
+    return out
+
+
+@prim("std::result::Result::map_or", "std::result::Result::map_or_else")
+def p_res_map_or(eng, st, name, args, site, depth, call):
+    out = []
+    for s, n, p in eng.force_enum(st, args[0], RESULT, site):
+        if n == "Ok":
+            out.extend(_call_closure(eng, s, args[2], [p[0]], site, depth))
+        elif name.endswith("map_or"):
+            out.append((s, eng.val(s, args[1])))
+        else:
+            out.extend(_call_closure(eng, s, args[1], [p[0]], site, depth))
+    return out
 
 
 @prim_re(r"^<.* as std::iter::Iterator>::(any|all|find|position|count|fold)$")
